@@ -267,6 +267,10 @@ class World:
                         self._put_word(I, dst + Poly.const(rel), val)
                     for rel, data in snap.bytes:
                         self._put_bytes(I, dst + Poly.const(rel), data)
+                if kind in ("to_nplike", "to_nparray"):
+                    # an array-like view of the storage: an abstract stand-in -- using anything of it that is not modelled
+                    # is a gap of the model (AnalysisError), never an AttributeError of the analysed program
+                    return Obj("nplike", {"buf": b, "pos": topoly(a[0]) if a else None, "args": a}, name=f"{kind}@{a[0]!r}" if a else kind)
                 if kind == "to_bytearray":
                     return Opaque(f"bytes@{a[0]!r}+{a[1]!r}")
                 if kind == "allocate":
